@@ -22,6 +22,29 @@ const TAILS: &[&str] = &[
     "[@@]{\"id\":@@,\"arr\":[@@]}",
 ];
 
+/// Is the T-th row (the first row for T = 0) really produced on this input? Decided by
+/// comparing the rows of --take T' and --take T'-1 (T' = max(T, 1)); under the stdout
+/// policy the comparison runs under `ignore`, because diagnostics on stdout are not rows.
+fn row_reached(case: &Case, take: u64, run: &mut dyn FnMut(&Case) -> RunOut) -> bool {
+    let t = take.max(1);
+    let variant = |n: u64| {
+        let mut c = case.clone();
+        for o in c.opts.iter_mut() {
+            if o[0].starts_with("--take=") {
+                o[0] = format!("--take={n}");
+            }
+        }
+        if policy_of(&c.opts) == Policy::Stdout {
+            c.opts.retain(|o| !o[0].starts_with("--on-error"));
+            c.opts.push(policy_opt(Policy::Ignore));
+        }
+        c
+    };
+    let a = run(&variant(t));
+    let b = run(&variant(t - 1));
+    a.outcome.is_ok() && b.outcome.is_ok() && a.obs.stdout != b.obs.stdout
+}
+
 fn strip_limits(opts: &mut Vec<Vec<String>>) {
     opts.retain(|o| !(o[0].starts_with("--take") || o[0].starts_with("--skip") || o[0].starts_with("--limit")));
 }
@@ -34,7 +57,7 @@ impl Property for C14 {
         "exploration"
     }
     fn rule(&self) -> &'static str {
-        "A scenario = streaming pipeline (any of --set, --split-by, --filter, --select, --unique, --only-objects-and-arrays, any output style) with --take T in 0..5 and --skip S in 0..3, a finite generated prefix (garbage allowed) followed by an endless tail of records produced by the stub on demand (each tail record distinct), delivered raw (1-byte requests) or through a harness BufReader with seeded chunk limits and EINTR. The tail is verified to keep producing rows for this pipeline (unlimited pipeline prints strictly more on 2M than on M tail records) and the limiter to be saturated on M records; otherwise the scenario is skipped as invalid. Reference = the same limited pipeline on the finite stream prefix+M records: d = input bytes consumed when its last stdout byte was written. The endless run must return (no simulator abort at d+256 KiB), with the same result kind and stdout, having pulled at most d+128 KiB through the stdin seam. evaluations = jawk executions; non-trivial = the endless run was executed against a saturated limiter; distinct = distinct abstract traces."
+        "A scenario = streaming pipeline (any of --set, --split-by, --filter, --select, --unique, --only-objects-and-arrays, any output style) with --take T in 0..5 and --skip S in 0..3, a finite generated prefix (garbage allowed) followed by an endless tail of records produced by the stub on demand (tail records all distinct, or repeating with a period of 1..6 so that --unique or a filter dries the pipeline up after the limit), delivered raw (1-byte requests) or through a harness BufReader with seeded chunk limits and EINTR. The limit is verified to have been reached within M tail records (same output on M and 2M records, and the T-th row is there: the output differs from that of --take T-1); otherwise the scenario is skipped as invalid. Families: stdin (SimSource), 1..3 file arguments the last of which never ends plus an optional further file that must never be opened, a directory whose files are all the same endless stream (exactly one may be opened), and the real executable on a pipe fed by a producer thread. Reference = the same limited pipeline on the finite stream prefix+M records: d = input bytes consumed when its last stdout byte was written. The endless run must return (no simulator abort at d+256 KiB), with the same result kind and stdout, having pulled at most d+128 KiB through the stdin seam. evaluations = jawk executions; non-trivial = the endless run was executed against a saturated limiter; distinct = distinct abstract traces."
     }
     fn assumptions(&self) -> Vec<String> {
         vec![
@@ -110,6 +133,9 @@ impl Property for C14 {
                 (*rng.pick(TAILS)).to_string()
             },
             start: rng.below(1000) as u64,
+            // one tail in four repeats itself: with --unique (or a filter on the counter) the
+            // pipeline stops producing rows, and jawk must have stopped at the T-th row
+            period: if rng.chance(1, 4) { Some(rng.range(1, 6) as u64) } else { None },
         });
         if on_files && rng.chance(1, 4) {
             // a directory argument holding 2..3 files, every one of them the whole prefix
@@ -199,14 +225,7 @@ impl Property for C14 {
             ctx.jawk_panic = None;
             return None;
         }
-        if u1.outcome.class() == "err" {
-            // e.g. --on-error=panic on a noisy prefix, or a configuration error: the run ends
-            // there; still compare endless with finite below
-        } else if u2.obs.stdout.len() <= u1.obs.stdout.len() {
-            ctx.stats.invalid = true;
-            ctx.stats.probe("skipped: tail produces no rows for this pipeline");
-            return None;
-        }
+        let _ = (&u1, &u2);
         // 2. the limited pipeline on M and 2M records: saturated limiter
         let l1 = ctx.exec(ref_spec(case, &in_m));
         let l2 = ctx.exec(ref_spec(case, &in_2m));
@@ -214,6 +233,20 @@ impl Property for C14 {
             ctx.stats.invalid = true;
             ctx.stats.probe("skipped: limiter not saturated on M records");
             return None;
+        }
+        // ... and the limit was really reached within M records: the T-th row is there (the
+        // output differs from that of --take T-1). A tail that stops producing rows before
+        // that (a repeating tail under --unique, say) obliges jawk to nothing.
+        if l1.outcome.is_ok() {
+            let reached = row_reached(case, take, &mut |c: &Case| ctx.exec(ref_spec(c, &in_m)));
+            if !reached {
+                ctx.stats.invalid = true;
+                ctx.stats.probe("skipped: the T-th row is never produced by this tail");
+                return None;
+            }
+            if u2.obs.stdout.len() <= u1.obs.stdout.len() {
+                ctx.stats.probe("tail stops producing rows after the limit was reached");
+            }
         }
         // d = input consumed when the last stdout byte was written
         let d = if take == 0 && l1.outcome.is_ok() {
@@ -225,7 +258,7 @@ impl Property for C14 {
             }
             let r = ctx.exec(ref_spec(&one, &in_m));
             let r2 = ctx.exec(ref_spec(&one, &in_2m));
-            if r.obs.stdout != r2.obs.stdout || r.obs.stdout.is_empty() {
+            if r.obs.stdout != r2.obs.stdout {
                 ctx.stats.invalid = true;
                 return None;
             }
@@ -474,36 +507,40 @@ fn check_files(case: &Case, ctx: &mut Ctx) -> Option<Violation> {
     }
     let paths = ctx.fresh_paths(datas.len());
     let m = (2 * (skip + take) + 6) as usize;
+    // the finite references stop with the file that will be endless: a further file can
+    // contribute rows only after that one ended, which it never does
     let finite = |n: usize| {
-        let mut d = datas.clone();
+        let mut d: Vec<Vec<u8>> = datas[..=last].to_vec();
         for k in 0..n {
             d[last].extend_from_slice(&endless.record(k as u64));
         }
         d
     };
-    let mut fplans = plans.clone();
+    let ref_paths: Vec<String> = paths[..=last].to_vec();
+    let mut fplans: Vec<FilePlan> = plans[..=last].to_vec();
     fplans[last].endless = None;
     let in_m = finite(m);
     let in_2m = finite(2 * m);
     let mut unlimited = case.clone();
     strip_limits(&mut unlimited.opts);
-    let u1 = ctx.exec(sim_files_spec(&unlimited, &paths, &in_m, &fplans));
-    let u2 = ctx.exec(sim_files_spec(&unlimited, &paths, &in_2m, &fplans));
+    let u1 = ctx.exec(sim_files_spec(&unlimited, &ref_paths, &in_m, &fplans));
+    let u2 = ctx.exec(sim_files_spec(&unlimited, &ref_paths, &in_2m, &fplans));
     if matches!(u1.outcome, Outcome::Panic(..) | Outcome::Clap(_)) {
         ctx.stats.invalid = true;
         ctx.jawk_panic = None;
         return None;
     }
-    if u1.outcome.class() != "err" && u2.obs.stdout.len() <= u1.obs.stdout.len() {
-        ctx.stats.invalid = true;
-        ctx.stats.probe("skipped: tail produces no rows for this pipeline");
-        return None;
-    }
-    let l1 = ctx.exec(sim_files_spec(case, &paths, &in_m, &fplans));
-    let l2 = ctx.exec(sim_files_spec(case, &paths, &in_2m, &fplans));
+    let _ = &u2;
+    let l1 = ctx.exec(sim_files_spec(case, &ref_paths, &in_m, &fplans));
+    let l2 = ctx.exec(sim_files_spec(case, &ref_paths, &in_2m, &fplans));
     if l1.obs.stdout != l2.obs.stdout || l1.outcome.class() != l2.outcome.class() {
         ctx.stats.invalid = true;
         ctx.stats.probe("skipped: limiter not saturated on M records");
+        return None;
+    }
+    if l1.outcome.is_ok() && !row_reached(case, take, &mut |c: &Case| ctx.exec(sim_files_spec(c, &ref_paths, &in_m, &fplans))) {
+        ctx.stats.invalid = true;
+        ctx.stats.probe("skipped: the T-th row is never produced by this tail");
         return None;
     }
     let prefix_len: usize = datas.iter().take(last + 1).map(Vec::len).sum();
@@ -514,9 +551,9 @@ fn check_files(case: &Case, ctx: &mut Ctx) -> Option<Violation> {
                 o[0] = "--take=1".into();
             }
         }
-        let r = ctx.exec(sim_files_spec(&one, &paths, &in_m, &fplans));
-        let r2 = ctx.exec(sim_files_spec(&one, &paths, &in_2m, &fplans));
-        if r.obs.stdout != r2.obs.stdout || r.obs.stdout.is_empty() {
+        let r = ctx.exec(sim_files_spec(&one, &ref_paths, &in_m, &fplans));
+        let r2 = ctx.exec(sim_files_spec(&one, &ref_paths, &in_2m, &fplans));
+        if r.obs.stdout != r2.obs.stdout {
             ctx.stats.invalid = true;
             return None;
         }
@@ -567,7 +604,7 @@ fn check_files(case: &Case, ctx: &mut Ctx) -> Option<Violation> {
                 format!("the file devices delivered {} bytes although the last row was complete after {d} bytes (allowance {SLACK})", r.obs.delivered),
             );
         }
-        if sentinel && r.obs.files.last().map_or(0, |f| f.opened) > 0 && l1.obs.files.last().map_or(0, |f| f.opened) == 0 {
+        if sentinel && r.obs.files.last().map_or(0, |f| f.opened) > 0 {
             return viol(
                 "C14.bounded",
                 "a further file argument was opened after the limit had been reached".to_string(),
@@ -581,14 +618,6 @@ fn check_files(case: &Case, ctx: &mut Ctx) -> Option<Violation> {
         );
     }
     None
-}
-
-fn dir_spec(case: &Case, dir: &str, paths: &[String], datas: &[Vec<u8>], plans: &[FilePlan]) -> RunSpec {
-    let mut spec = sim_files_spec(case, paths, datas, plans);
-    let keep = spec.argv.len() - paths.len();
-    spec.argv.truncate(keep);
-    spec.argv.push(dir.to_string());
-    spec
 }
 
 /// A directory argument whose files are all endless: exactly one of them may be opened.
@@ -665,7 +694,7 @@ fn check_dir(case: &Case, ctx: &mut Ctx) -> Option<Violation> {
         // swallowing the rows of identical later files) nothing forbids opening the next one
         let d = delivered_when_out_reached(&l1.obs.events, l1.obs.stdout.len()).unwrap_or(prefix.len());
         let datas: Vec<Vec<u8>> = (0..n).map(|_| prefix.clone()).collect();
-        let mut spec = dir_spec(case, &dir, &paths, &datas, &case.files);
+        let mut spec = sim_dir_spec(case, &dir, &paths, &datas, &case.files);
         for f in spec.files.iter_mut() {
             f.byte_budget = prefix.len().max(d) + BUDGET_EXTRA;
         }
